@@ -171,7 +171,7 @@ def r06_3(run, model):
     for iff in S.find(i.body, "If"):
         if S.norm_ws(run.facts.text(CM, iff["cond"]["sp"])) == "default_rows.is_empty()":
             t = S.norm_ws(run.facts.text(CM, iff["then"]["sp"]))
-            if "diagnostics.push(" in t and "Severity::Error" in t and "return" in t:
+            if S.pushes_error(model, run.facts, CM, iff["then"]) and "return" in t:
                 ok = True
     run.ob("R06.3", "compile_int_case_impl|no default rows -> error diagnostic", ok, site(CM, i.node["sp"]), "non-exhaustive integer match is reported" if ok else "missing")
     s_ = model.fn("compile_string_case", CM)
